@@ -67,7 +67,7 @@ func genC13(rt *rapid.T, tier string) any {
 		case numeric && i%2 == 0:
 			tx = append(tx, strconv.Itoa(i+rapid.IntRange(0, 3).Draw(rt, "numoff")*100)) // unique: i < 100
 		default:
-			tx = append(tx, rapid.SampledFrom([]string{"t", "Tx_", "sp.", "A", "z9_"}).Draw(rt, "prefix")+strconv.Itoa(i))
+			tx = append(tx, rapid.SampledFrom([]string{"t", "Tx_", "sp.", "A", "z9_", "Mé", "p%d_", "日", "a|b#", "x&y"}).Draw(rt, "prefix")+strconv.Itoa(i))
 		}
 	}
 	c.Hetero = rapid.IntRange(0, 7).Draw(rt, "hetero") == 0
